@@ -170,8 +170,8 @@ def check_proofs(pid, tier):
         return res
     # every Theorem must be closed by `exact <lemma>.` (statement-only file)
     try:
-        os.makedirs(os.path.join(WORK, pid), exist_ok=True)
-        r = subprocess.run(["coqc", "-Q", "theories", "Baize", "-o", os.path.join(WORK, pid, "Properties.vo"),
+        os.makedirs(os.path.join(WORK, "%s-%d" % (pid, os.getpid())), exist_ok=True)   # per process: runs may overlap
+        r = subprocess.run(["coqc", "-Q", "theories", "Baize", "-o", os.path.join(WORK, "%s-%d" % (pid, os.getpid()), "Properties.vo"),
                             os.path.join("theories", pid, "Properties.v")],
                            cwd=COQ, capture_output=True, text=True, timeout=600)
     except subprocess.TimeoutExpired:
@@ -396,7 +396,8 @@ def kernel_crosscheck(pid, lines, expected, k=48):
     if not idx:
         return 0, []
     os.makedirs(WORK, exist_ok=True)
-    vf = os.path.join(WORK, "%s_kernel.v" % pid)
+    vf = os.path.join(WORK, "%s-%d" % (pid, os.getpid()), "%s_kernel.v" % pid)
+    os.makedirs(os.path.dirname(vf), exist_ok=True)
     with open(vf, "w") as f:
         f.write("From Coq Require Import List NArith.\nFrom Baize Require %s.IO.\nImport ListNotations.\n" % pid)
         f.write("Definition show (l : list N) := l.\n")
@@ -723,8 +724,15 @@ def load_corpus(pid):
     return out
 
 
+def _cleanup_rundir(pid):
+    import shutil
+    shutil.rmtree(os.path.join(WORK, "%s-%d" % (pid, os.getpid())), ignore_errors=True)
+
+
 def main(mod):
     import argparse
+    import atexit
+    atexit.register(_cleanup_rundir, mod.PID)
     ap = argparse.ArgumentParser()
     ap.add_argument("tier", nargs="?", default=os.environ.get("VERIF_TIER", "quick"))
     ap.add_argument("--replay")
